@@ -5,6 +5,7 @@ import (
 	"go/ast"
 	"go/token"
 	"go/types"
+	"regexp"
 	"strings"
 
 	"golang.org/x/tools/go/packages"
@@ -75,6 +76,12 @@ var c08Sources = map[string]string{
 	"github.com/google/uuid.NewRandom": "uuid not via uuids generator",
 }
 
+// c08SafeShapes: facts about a map TYPE that make one kind of loop over any value of it order-insensitive wherever the
+// loop stands. key = <type>|<classifier's objection with the loop variables written ·k / ·v>.
+var c08SafeShapes = map[string]string{
+	"flows.FieldValues|map store keyed by a non-injective function of the key: ·v.field.Key()": "FieldValues is keyed by field.Key() (FieldValues.Set is its only writer), so v.field.Key() is the range key itself: a keyed store",
+}
+
 // frozen table: uses of map-order sources that are immediately sorted or otherwise harmless. key = caller|callee.
 var c08SourceAllowed = map[string]string{}
 
@@ -83,7 +90,6 @@ var c08SourceAllowed = map[string]string{}
 var c08SafeRanges = map[string]string{
 	"excellent/functions.init/range builtin":                                           "RegisterXFunction stores XFUNCTIONS[name]: a store keyed by the unique range key",
 	"flows/routers/cases.init/range builtin":                                           "RegisterXTest stores XTESTS[name] and registers the function under the same unique key",
-	"flows.Contact.MarshalJSON/range c.fields":                                         "FieldValues is keyed by field.Key() (FieldValues.Set is its only writer), so v.field.Key() is the range key itself: a keyed store",
 	"flows/definition.flowAssets.FindByName/range a.cache":                             "flow names are unique (case-insensitively) within an asset source, the same contract the source.FlowByName fallback relies on; at most one cached flow matches",
 	"flows/definition.languageTranslation.Enumerate/range t":                           "no caller inside the module; exposed for hosts that import translations keyed by (uuid, property)",
 	"flows/definition.languageTranslation.Enumerate/range it":                          "no caller inside the module; see the outer loop",
@@ -166,6 +172,7 @@ func checkC08(p *core.Program, r *core.Report) {
 	total, mapRanges := 0, 0
 	type site struct {
 		key, pos, verdict, why string
+		shape                  string // <type of the ranged map>|<why, with the loop variables written ·k and ·v>: for facts about a type
 	}
 	var sites []site
 	seenKey := map[string]int{}
@@ -192,7 +199,17 @@ func checkC08(p *core.Program, r *core.Report) {
 				}
 			}
 		}
-		sites = append(sites, site{key, p.Pos(rs.Pos()), v, why})
+		shape := ""
+		if tv, ok := pk.TypesInfo.Types[rs.X]; ok && tv.Type != nil {
+			w := why
+			for _, pr := range [][2]any{{rs.Key, "·k"}, {rs.Value, "·v"}} {
+				if id, ok := pr[0].(*ast.Ident); ok && id != nil && id.Name != "_" {
+					w = regexp.MustCompile(`\b`+regexp.QuoteMeta(id.Name)+`\b`).ReplaceAllString(w, pr[1].(string))
+				}
+			}
+			shape = core.ShortType(tv.Type) + "|" + w
+		}
+		sites = append(sites, site{key, p.Pos(rs.Pos()), v, why, shape})
 	}
 	eachFunc := func(f func(pk *packages.Package, fd *ast.FuncDecl, fname string)) {
 		for _, pk := range p.Pkgs {
@@ -289,7 +306,7 @@ func checkC08(p *core.Program, r *core.Report) {
 					}
 				}
 				key := fname + "/use " + types.ExprString(call)
-				sites = append(sites, site{key, p.Pos(call.Pos()), "leaking", "slice in map order (from " + core.ObjName(pr.obj) + ") used outside a range statement"})
+				sites = append(sites, site{key, p.Pos(call.Pos()), "leaking", "slice in map order (from " + core.ObjName(pr.obj) + ") used outside a range statement", ""})
 				return true
 			})
 		})
@@ -306,6 +323,8 @@ func checkC08(p *core.Program, r *core.Report) {
 		default:
 			if reason, ok := c08SafeRanges[s.key]; ok {
 				r.OK("R2", s.key, s.pos, "listed: "+reason)
+			} else if reason, ok := c08SafeShapes[s.shape]; ok {
+				r.OK("R2", s.key, s.pos, "listed for the type: "+reason)
 			} else {
 				r.Bad("R2", s.key, s.pos, "map iteration order can reach output: "+s.why)
 			}
@@ -633,6 +652,15 @@ func (m *mapClassifier) stmt(s ast.Stmt, keyEq bool) string {
 		if m.isPerKeyObjectCall(call) {
 			m.notes = append(m.notes, "method call on an object looked up by the range key")
 			return m.callsOK(call)
+		}
+		if m.isKeyedStoreHelper(call) {
+			m.notes = append(m.notes, "helper whose only effect is a store into a map argument under the range key")
+			for _, a := range call.Args {
+				if why := m.callsOK(a); why != "" {
+					return why
+				}
+			}
+			return ""
 		}
 		return "call with side effects inside the loop: " + types.ExprString(call.Fun)
 	case *ast.IfStmt:
@@ -985,12 +1013,22 @@ func totalComparator(m *mapClassifier, call *ast.CallExpr) bool {
 	if want, listed := c08Comparators[declName(m.pk, m.fn)]; listed {
 		// a listed comparator must still compare every listed field of both elements
 		seen := map[string]int{}
-		ast.Inspect(fl.Body, func(n ast.Node) bool {
-			if se, ok := n.(*ast.SelectorExpr); ok {
-				seen[se.Sel.Name]++
-			}
-			return true
-		})
+		var count func(body ast.Node, depth int)
+		count = func(body ast.Node, depth int) {
+			ast.Inspect(body, func(n ast.Node) bool {
+				if se, ok := n.(*ast.SelectorExpr); ok {
+					seen[se.Sel.Name]++
+				}
+				// the comparison written as a named function of the package, called with the two elements
+				if c2, ok := n.(*ast.CallExpr); ok && depth == 0 {
+					if fd := m.localFuncDecl(c2); fd != nil {
+						count(fd.Body, depth+1)
+					}
+				}
+				return true
+			})
+		}
+		count(fl.Body, 0)
 		for _, f := range want {
 			if seen[f] < 2 {
 				return false
@@ -1085,4 +1123,117 @@ func (m *mapClassifier) isPerKeyObjectCall(call *ast.CallExpr) bool {
 		return true
 	})
 	return derived
+}
+
+// localFuncDecl: the declaration of the same-package function (not method value) a call expression calls, if any.
+func (m *mapClassifier) localFuncDecl(call *ast.CallExpr) *ast.FuncDecl {
+	info := m.pk.TypesInfo
+	var fo *types.Func
+	switch f := call.Fun.(type) {
+	case *ast.Ident:
+		fo, _ = info.Uses[f].(*types.Func)
+	case *ast.SelectorExpr:
+		fo, _ = info.Uses[f.Sel].(*types.Func)
+	}
+	if fo == nil || fo.Pkg() == nil || fo.Pkg() != m.pk.Types {
+		return nil
+	}
+	for _, file := range m.pk.Syntax {
+		for _, d := range file.Decls {
+			if fd, ok := d.(*ast.FuncDecl); ok && fd.Body != nil && info.Defs[fd.Name] == types.Object(fo) {
+				return fd
+			}
+		}
+	}
+	return nil
+}
+
+// isKeyedStoreHelper: the call goes to a function of the same package whose body, apart from declaring locals and
+// testing them, only stores into one of its map parameters under another of its parameters — and the argument in that
+// key position is the range key (keys are unique: the stores of different iterations go to different entries).
+func (m *mapClassifier) isKeyedStoreHelper(call *ast.CallExpr) bool {
+	fd := m.localFuncDecl(call)
+	if fd == nil || fd.Recv != nil {
+		return false
+	}
+	info := m.pk.TypesInfo
+	var params []types.Object
+	for _, fl := range fd.Type.Params.List {
+		for _, nm := range fl.Names {
+			params = append(params, info.Defs[nm])
+		}
+	}
+	if len(params) != len(call.Args) {
+		return false
+	}
+	paramIdx := func(e ast.Expr) int {
+		id, ok := ast.Unparen(e).(*ast.Ident)
+		if !ok {
+			return -1
+		}
+		for i, po := range params {
+			if po != nil && info.Uses[id] == po {
+				return i
+			}
+		}
+		return -1
+	}
+	stores := 0
+	var okStmt func(st ast.Stmt) bool
+	okBlock := func(list []ast.Stmt) bool {
+		for _, st := range list {
+			if !okStmt(st) {
+				return false
+			}
+		}
+		return true
+	}
+	okStmt = func(st ast.Stmt) bool {
+		switch x := st.(type) {
+		case *ast.EmptyStmt, *ast.DeclStmt:
+			return true
+		case *ast.ReturnStmt:
+			return len(x.Results) == 0
+		case *ast.AssignStmt:
+			if x.Tok == token.DEFINE {
+				return true
+			}
+			if x.Tok != token.ASSIGN || len(x.Lhs) != 1 {
+				return false
+			}
+			ix, ok := ast.Unparen(x.Lhs[0]).(*ast.IndexExpr)
+			if !ok {
+				return false
+			}
+			mi, ki := paramIdx(ix.X), paramIdx(ix.Index)
+			if mi < 0 || ki < 0 {
+				return false
+			}
+			if _, isMap := info.TypeOf(ix.X).Underlying().(*types.Map); !isMap {
+				return false
+			}
+			if !m.isKey(call.Args[ki]) {
+				return false
+			}
+			stores++
+			return true
+		case *ast.IfStmt:
+			if x.Init != nil && !okStmt(x.Init) {
+				return false
+			}
+			if !okBlock(x.Body.List) {
+				return false
+			}
+			switch e := x.Else.(type) {
+			case nil:
+				return true
+			case *ast.BlockStmt:
+				return okBlock(e.List)
+			default:
+				return okStmt(e)
+			}
+		}
+		return false
+	}
+	return okBlock(fd.Body.List) && stores > 0
 }
